@@ -5,64 +5,64 @@ import json
 CHECKS = {
  # id: (level, technique, level text, level note, design ref)
  "C03": ("exploration", "reference-record monitor on decoded callback replies (etree + expat double extraction, wall-clock bracket)",
-         "Hundreds to thousands of stored-request x user x configuration cases are driven through the real login callback; every field of each decoded Success response is compared with a reference record the harness computes itself, extracted twice with independent parsers; a further workload lets the user lookup fail (at once, late, after part of the record) and no Success may follow; the storage's records are compared with their registered state after every case. Sampling, not proof: the input space (all strings) is unbounded.",
+         "Hundreds to thousands of stored-request x user x configuration cases are driven through the real login callback; every field of each decoded Success response is compared with a reference record the harness computes itself, extracted twice with independent parsers; a further workload lets the user lookup fail (at once, late, after part of the record) and no Success may follow; the storage's records are compared with their registered state after every case. Sampling, not proof: the input space (all strings) is unbounded. Histories on one provider (two sessions colliding in AuthnRequest ID / RelayState / user / application, called back repeatedly and alternately, the application re-registered in between) are judged reply by reply.",
          "Trusts etree/expat parsing, html tokenizer of the harness, and the wall-clock bracket (1 s slack). Strings are drawn from legal XML characters only.", "DESIGN.md §5 C03"),
  "C04": ("exploration", "independent verifiers (goxmldsig + python expat/exc-c14n/modpow; own HTTP-Redirect verifier) over artefacts emitted by the real handlers",
-         "Every signed artefact the handlers emit in the run (assertions on POST / body / SOAP delivery, redirect query signatures, signed metadata) is verified on its wire bytes by two independent verifiers with the certificate the IdP publishes; users with several kB of incompressible data, key rotations on long-lived providers and configurations in which signing cannot succeed are included.",
+         "Every signed artefact the handlers emit in the run (assertions on POST / body / SOAP delivery, redirect query signatures, signed metadata) is verified on its wire bytes by two independent verifiers with the certificate the IdP publishes; users with several kB of incompressible data, key rotations on long-lived providers and configurations in which signing cannot succeed are included. Repeated and alternating callbacks of colliding sessions on one provider and RelayStates beyond 80 bytes are included.",
          "Trusts crypto/rsa, hashlib, expat; V1 and V2 jointly.", "DESIGN.md §5 C04"),
  "C05": ("exploration", "signed-set membership monitor over the storage event log (what was persisted vs. what the simulated SPs really signed)",
-         "40 configurations x 20 mutation families of validly signed messages are sent to the real SSO handler; whenever a request is accepted although signing was required or a signature value was present, the persisted content must be exactly something the registered key signed. One family smuggles forged values beside a genuine triple sent in another percent-encoding style; a ninth of the cases runs while the key storage is failing. Rejection is always allowed, so the monitor cannot raise a false alarm on stricter code.",
+         "40 configurations x 20 mutation families of validly signed messages are sent to the real SSO handler; whenever a request is accepted although signing was required or a signature value was present, the persisted content must be exactly something the registered key signed. One family smuggles forged values beside a genuine triple sent in another percent-encoding style; a ninth of the cases runs while the key storage is failing. Rejection is always allowed, so the monitor cannot raise a false alarm on stricter code. A seventh of the cases is preceded by refused messages whose DEFLATE stream breaks off behind a complete, never signed request.",
          "Trusts the harness's own signer (crypto/rsa, goxmldsig SigningContext) and the event log; R2 is not judged when parameter occurrences in query and body differ.", "DESIGN.md §5 C05"),
  "C06": ("exploration", "label-by-construction monitor plus independent (expat) re-evaluation of every accepted request",
          "Conformant requests with 0-2 labelled deviations are sent to the real SSO handler; a labelled deviation must never be accepted, and every accepted request is decoded independently and all necessary conditions are re-evaluated against the call's time bracket; sequential and concurrent multi-host workloads (six clients of three hosts in flight on one provider, delays inside storage calls) send requests that carry another host's location.",
          "Trusts expat, stdlib base64/flate, the time bracket (2 s slack). Leniencies of encoding/xml that still 'decode as an AuthnRequest' (trailing bytes, duplicate attributes) are not judged.", "DESIGN.md §5 C06"),
  "C07": ("exploration", "conformant-message generator with acceptance monitor (storage log + decoded status)",
-         "Messages a conformant SP can produce (serialisation styles x bindings x signing x encoding styles x KeyInfo layouts x requirements) must be accepted by the real handlers - also in multi-host sequences, with six clients of three hosts in flight on one provider, after long uptime, and while a neighbouring request of the same service provider is being aborted (cancelled context).",
+         "Messages a conformant SP can produce (serialisation styles x bindings x signing x encoding styles x KeyInfo layouts x requirements) must be accepted by the real handlers - also in multi-host sequences, with six clients of three hosts in flight on one provider, after long uptime, and while a neighbouring request of the same service provider is being aborted (cancelled context). Correctly signed requests of several service providers are in flight together; signed and unsigned attribute queries also declare their namespace prefixes on the SOAP Envelope / Body.",
          "The generator defines 'conformant'; it never sends an empty RelayState parameter and uses UTC 'Z' timestamps.", "DESIGN.md §5 C07"),
  "C08": ("exploration", "outcome monitor over recorded ResponseWriter calls and the storage write log",
-         "Each SSO request (valid, invalid at each step, unanswerable, failing persistence; any consumer-binding mix) must end in exactly one of the two outcomes; persist count, reply shape, number of documents/forms/WriteHeader calls and left-over records are checked; one request is also submitted twice at the same time, both submissions held inside CreateAuthRequest by a barrier in the storage.",
+         "Each SSO request (valid, invalid at each step, unanswerable, failing persistence; any consumer-binding mix) must end in exactly one of the two outcomes; persist count, reply shape, number of documents/forms/WriteHeader calls and left-over records are checked; one request is also submitted twice at the same time, both submissions held inside CreateAuthRequest by a barrier in the storage. Consumer bindings include the other bindings SAML defines (SimpleSign, SOAP, URI, holder-of-key).",
          "Trusts the harness's reply classifier.", "DESIGN.md §5 C08"),
  "C01": ("exploration", "online monitor on the tagged storage event log + leak scan of fully decoded replies + porcupine linearizability check of completion/callback histories",
-         "Callbacks in every stored-request state (absent / pending / done / late failures) with every id placement (incl. percent-sequence aliases of another session's id) and method, late failures in several relative timings, are judged online: Success needs an observed 'found and Done()=true' for a supplied id; anything else must carry no NameID, attribute value, signature or user canary. Concurrent histories (sessions created through the real SSO endpoint, racing completions and callbacks, delays injected in storage) are checked with porcupine against a per-session register model.",
+         "Callbacks in every stored-request state (absent / pending / done / late failures) with every id placement (incl. percent-sequence aliases of another session's id) and method, late failures in several relative timings, are judged online: Success needs an observed 'found and Done()=true' for a supplied id; anything else must carry no NameID, attribute value, signature or user canary. Concurrent histories (sessions created through the real SSO endpoint, racing completions and callbacks, delays injected in storage) are checked with porcupine against a per-session register model. Live records: the login is completed / the account switched after the n-th accessor call of the callback, and a Success must be about the user the record named when it reported completion; the storage may also crash (panic) inside the calls behind the gate.",
          "Trusts the simulated storage (per-lookup wrapper attributes Done() to the calling request) and porcupine; histories are short (<= 60 operations) so the checker never times out.", "DESIGN.md §5 C01"),
  "C02": ("exploration", "delivery-target monitor: registered-endpoint membership, only-encodes relation on form actions, canary hosts",
-         "SSO, callback and logout requests that try to steer the reply elsewhere (foreign ACS URL / index / binding / Destination, URL RelayState, override-like parameters) against hostile registered URLs: every form action / Location / Destination / Recipient and every pair handed to CreateAuthRequest must come from the registration (resp. the stored request).",
+         "SSO, callback and logout requests that try to steer the reply elsewhere (foreign ACS URL / index / binding / Destination, URL RelayState, override-like parameters) against hostile registered URLs: every form action / Location / Destination / Recipient and every pair handed to CreateAuthRequest must come from the registration (resp. the stored request). Plain-http consumer URLs, explicit ports, callback histories of colliding sessions and two tenants with one entity ID in flight together are included.",
          "Registered URLs are absolute http(s) URLs without fragment; html/template URL normalisation is modelled only by the table-free 'only-encodes' relation.", "DESIGN.md §5 C02"),
  "C09": ("exploration", "recover()-based crash monitor in child processes over exhaustive structural edits, grids and byte mutations",
-         "Every single (thorough: every pair of) deletion / duplication / emptying of each element and attribute of valid messages on all transports, every SigAlg URI x registered key type, every endpoint x method x parameter shape, byte mutations, integer boundary values for index attributes, SP metadata edits and sequences with faults that persist over several requests of one provider are executed against the real handlers / NewServiceProvider with panics recovered per call; a dying child process is a violation whose replay is the journalled case.",
+         "Every single (thorough: every pair of) deletion / duplication / emptying of each element and attribute of valid messages on all transports, every SigAlg URI x registered key type, every endpoint x method x parameter shape, byte mutations, integer boundary values for index attributes, SP metadata edits and sequences with faults that persist over several requests of one provider are executed against the real handlers / NewServiceProvider with panics recovered per call; a dying child process is a violation whose replay is the journalled case. Clients go away before the handler starts, after the body was read and inside the k-th storage call; SP metadata is offered under 50 declared encodings.",
          "Absence of panics is only shown for the inputs executed; the thorough tier adds all pairs of structural edits and four coverage-guided go test -fuzz targets (decoders, NewServiceProvider, SSO handler, logout / attribute query / callback handlers) with execution-count budgets.", "DESIGN.md §5 C09"),
  "C10": ("fault_enumeration", "fault-injection enumeration over recorded storage-call sequences with fail-closed oracle",
-         "For 15 endpoint scenarios the storage calls of a fault-free run are recorded; every (operation, occurrence) x fault kind is injected singly - on a fresh provider and right after the same provider served the same request fault-free, each also with the failing call slow, with all other calls slow and (user lookups) after part of the record was delivered - (and, thorough, in pairs where the handler still calls storage after the first fault), plus unusable configured signature algorithms; after a fault the reply must be HTTP 5xx or non-Success SAML with no user data, signature, persistence or login redirect. Exhaustive over the enumerated space.",
+         "For 15 endpoint scenarios the storage calls of a fault-free run are recorded; every (operation, occurrence) x fault kind is injected singly - on a fresh provider and right after the same provider served the same request fault-free, each also with the failing call slow, with all other calls slow and (user lookups) after part of the record was delivered - (and, thorough, in pairs where the handler still calls storage after the first fault), plus unusable configured signature algorithms; after a fault the reply must be HTTP 5xx or non-Success SAML with no user data, signature, persistence or login redirect. Exhaustive over the enumerated space. Every operation is also made to fail for everybody while two identical requests are in flight.",
          "Other requests may reach other call sequences; the simulated storage decides which call fails by (operation, k-th occurrence within the request).", "DESIGN.md §5 C10"),
  "C11": ("exploration", "configuration sampling with positive probes: metadata vs observed Issuer / routes / key / refusal behaviour",
-         "Random provider configurations x hosts: the served metadata is parsed (expat, library) and compared with what the provider does - Issuer of four reply kinds, advertised locations vs routes (a conformant request to the route must reach the right handler), KeyDescriptor vs certificate endpoint vs key verifying a fresh assertion, WantAuthnRequestsSigned vs actual refusal of unsigned requests on both bindings; key rotation and transient key-storage failures while the metadata is built.",
-         "Route paths are URL-safe and pairwise distinct; external endpoint URLs are compared textually only.", "DESIGN.md §5 C11"),
+         "Random provider configurations x hosts: the served metadata is parsed (expat, library) and compared with what the provider does - Issuer of four reply kinds, advertised locations vs routes (a conformant request to the route must reach the right handler), KeyDescriptor vs certificate endpoint vs key verifying a fresh assertion, WantAuthnRequestsSigned vs actual refusal of unsigned requests on both bindings; key rotation and transient key-storage failures while the metadata is built. Route paths include segments that are percent-encoded on the wire.",
+         "Route paths are pairwise distinct and free of %, ?, #; external endpoint URLs are compared textually only.", "DESIGN.md §5 C11"),
  "C12": ("exploration", "disclosure-guard monitor with user canaries + reference attribute filter + independent signature verifiers",
          "Attribute queries with labelled Issuer / Destination / signature / subject / requested attributes: any user canary in a reply implies all guard conditions; answered queries are compared with a reference filter (as sets), the lookup argument, NameID, InResponseTo, Audience, Issuer, and their assertion signature is verified by V1 and V2 (also when storage hands out a certificate and key that do not belong together); designators may name AttributeValues; the storage's records are compared with their registered state after every case.",
          "Signature-wrapping variants (a genuine signed query travelling with an unsigned one in 7 arrangements) must never be answered for the unsigned content.", "DESIGN.md §5 C12"),
  "C13": ("exploration", "label-by-construction monitor on decoded LogoutResponses with wall-clock bracket",
-         "Logout requests with labelled validity, hostile RelayState and SP registrations with 0-3 SingleLogoutService entries: Success only for valid requests, InResponseTo echo, Issuer, delivery target = first registered location or body, RelayState unchanged; POST bodies that trickle in while the request expires must not be answered with Success.",
+         "Logout requests with labelled validity, hostile RelayState and SP registrations with 0-3 SingleLogoutService entries: Success only for valid requests, InResponseTo echo, Issuer, delivery target = first registered location or body, RelayState unchanged; POST bodies that trickle in while the request expires must not be answered with Success. Some entries carry a ResponseLocation attribute.",
          "Absent / unparseable instants are not judged; RelayState is compared modulo CR/CRLF->LF.", "DESIGN.md §5 C13"),
  "C14": ("exploration", "allocation monitor (runtime.MemStats.TotalAlloc around one ServeHTTP) in a dedicated sequential child process",
-         "Decompression bombs of 1 MiB - 256 MiB (thorough 1 GiB) in five placements, three containers, on all inflating endpoints, also while the key storage is failing: per-request allocation ceiling, flatness of allocation beyond the cap, and non-acceptance of large payloads.",
+         "Decompression bombs of 1 MiB - 256 MiB (thorough 1 GiB) in six placements, four containers (raw, zlib, gzip, many complete DEFLATE streams back to back), on all inflating endpoints, also while the key storage is failing: per-request allocation ceiling, flatness of allocation beyond the cap, and non-acceptance of large payloads.",
          "Measures cumulative allocation, not RSS; thresholds are deliberately loose (512 MiB ceiling, 1.5x flatness).", "DESIGN.md §5 C14"),
  "C15": ("exploration", "Go race detector + canary isolation monitor + global ID-uniqueness monitor under a concurrent mixed workload with injected storage delays",
-         "16/32/64 concurrent clients x GOMAXPROCS 2/4/16 against one provider instance built with -race; DATA RACE reports with repo frames, any foreign canary in a reply or persisted record, and any duplicate or malformed ID are violations; replies are compared with the registered user records, which must themselves stay unchanged; the concurrent workloads of C06/C07/C08 run once more in this build. Evidence reports max in-flight requests and distinct interleaving signatures actually observed.",
+         "16/32/64 concurrent clients x GOMAXPROCS 2/4/16 against one provider instance built with -race; DATA RACE reports with repo frames, any foreign canary in a reply or persisted record, and any duplicate or malformed ID are violations; replies are compared with the registered user records, which must themselves stay unchanged; the concurrent workloads of C06/C07/C08 run once more in this build. Some rounds give every virtual host a signing key of its own (picked by the issuer in the storage call's context) and leave parts of the organisation data unconfigured; a request that is never answered is reported by a per-request monitor. Evidence reports max in-flight requests and distinct interleaving signatures actually observed.",
          "The race detector only sees executed interleavings; delays are injected at the storage suspension points only.", "DESIGN.md §5 C15"),
  "C16": ("exploration", "reference-model monitor over exhaustive enumeration of the stated list domain (+ end-to-end sample through the SSO handler)",
-         "Every consumer-service list up to length 3 (quick) / 4 (thorough) over the stated domain x 6 requested bindings is evaluated by the real selection function and compared with the set of entries the documented rule allows. Exhaustive on the stated bound.",
+         "Every consumer-service list up to length 3 (quick) / 4 (thorough) over the stated domain x 6 requested bindings is evaluated by the real selection function and compared with the set of entries the documented rule allows. Exhaustive on the stated bound. End to end: registration histories, first requests of a fresh registration at once, two tenants' requests for one entity ID in flight together.",
          "Trusts the 25-line reference model; ties on the minimal index are free.", "DESIGN.md §5 C16"),
  "C17": ("exploration", "own byte-level HTML tokenizer: skeleton identity against a neutral rendering + value identity of the three substitutions",
-         "Auto-submit pages produced through every real path with hostile RelayState (all bytes, NUL, invalid UTF-8, 64 KiB) and consumer URLs (scheme tricks, markup) must have the neutral skeleton; the three values must be the substituted ones (NUL / invalid UTF-8 may become U+FFFD); the action's scheme as a browser reads it must not be a script scheme (javascript, vbscript, livescript, mocha, data); storage faults at the callback must not yield a second page.",
+         "Auto-submit pages produced through every real path with hostile RelayState (all bytes, NUL, invalid UTF-8, 64 KiB) and consumer URLs (scheme tricks, markup) must have the neutral skeleton; the three values must be the substituted ones (NUL / invalid UTF-8 may become U+FFFD); the action's scheme as a browser reads it must not be a script scheme (javascript, vbscript, livescript, mocha, data); storage faults at the callback must not yield a second page. Repeated callbacks of one session must each be a complete page (never an empty 200); logout pages are rendered while secondary storage calls fail.",
          "Trusts the harness tokenizer (HTML tag / attribute states); the inert placeholder is accepted only for URLs with a non-http(s)/mailto 'scheme'.", "DESIGN.md §5 C17"),
  "C18": ("exploration", "codec identity monitor + expat well-formedness / skeleton identity / value identity on marshalled messages and harvested replies",
-         "Round trip of the DEFLATE+base64 codec on 0 B - 4 MiB inputs, error on every near-miss encoding identifier; Response / SOAP / LogoutResponse / EntityDescriptor values with arbitrary (incl. illegal) strings through the exported marshallers must stay one well-formed document with the neutral skeleton and give the values back (legal: exactly; illegal: replaced only); replies echoing attacker-chosen IDs are checked likewise.",
+         "Round trip of the DEFLATE+base64 codec on 0 B - 4 MiB inputs, error on every near-miss encoding identifier; Response / SOAP / LogoutResponse / EntityDescriptor values with arbitrary (incl. illegal) strings through the exported marshallers must stay one well-formed document with the neutral skeleton and give the values back (legal: exactly; illegal: replaced only); replies echoing attacker-chosen IDs are checked likewise. Metadata documents served around key faults are one well-formed EntityDescriptor with the configured values or an error status.",
          "Trusts expat as the generic XML parser; codec inputs above the decoder's cap are out of scope (C14).", "DESIGN.md §5 C18"),
  "C19": ("exploration", "RFC 3986 reference splitter on accepted issuers + by-construction expectation on Forwarded / Host derived issuers",
          "Issuer strings x insecure flag offered to ValidateIssuer / NewProvider: acceptance implies the reference conditions (only-if; stricter code never alarms). Generated header sets: entityID and endpoint URLs of the served metadata equal scheme + expected host + configured path.",
          "For malformed forwarding headers only the weaker origin clause is judged.", "DESIGN.md §5 C19"),
  "C20": ("exploration", "reference-interpreter monitor over traces recorded by instrumented closures (exhaustive chain enumeration + random chains)",
-         "Every step sequence up to length 4 (quick) / 6 (thorough) over all (step kind, outcome) variants is built with the real checker and evaluated twice (random chains four more times after the outcomes of their steps were changed); an online monitor compares the recorded closure trace and result with a reference interpreter. Exhaustive on the stated bound, sampled beyond it.",
+         "Every step sequence up to length 4 (quick) / 6 (thorough) over all (step kind, outcome) variants is built with the real checker and evaluated twice (random chains four more times after the outcomes of their steps were changed); an online monitor compares the recorded closure trace and result with a reference interpreter. Two evaluations of one checker also overlap (one parked inside a step while the other runs start to end), each judged on its own. Exhaustive on the stated bound, sampled beyond it.",
          "Trusts the reference interpreter (40 lines) and that closures are deterministic; value-read multiplicity is deliberately not judged.", "DESIGN.md §5 C20"),
 }
 
